@@ -29,8 +29,21 @@ pub struct Optimizer<F>(core::marker::PhantomData<F>);
 
 impl<F: Field> Optimizer<F> {
     pub fn optimize(ops: Vec<Op<F>>) -> (Vec<Op<F>>, HashMap<WitnessId, WitnessId>) {
+        Self::optimize_with_private_inputs(ops, &[])
+    }
+
+    /// Same as [`Self::optimize`], for op lists whose `private_inputs` witnesses are set by
+    /// the caller before execution (they have no defining op in `ops`).
+    pub fn optimize_with_private_inputs(
+        ops: Vec<Op<F>>,
+        private_inputs: &[WitnessId],
+    ) -> (Vec<Op<F>>, HashMap<WitnessId, WitnessId>) {
         let (ops, rewrite) = Deduplicator::new().run(ops);
-        let ops = MulAddFusion::new(&ops).run(ops);
+        let external: Vec<WitnessId> = private_inputs
+            .iter()
+            .map(|id| id.resolve(&rewrite))
+            .collect();
+        let ops = MulAddFusion::with_external_defs(&ops, &external).run(ops);
         (ops, rewrite)
     }
 }
